@@ -97,18 +97,20 @@ def handle (e : Env) (w : Nat) (op : String) (args : List String) (got : String)
     if d12.isZero a then some { model := got, spec := [got], tags := ["gtel.cyc0"] } else
     let t := d12.pow a (p ^ 6 - 1)
     some { model := got, spec := [fmtGt e (d12.mul (d12.pow t (p ^ 2)) t)], tags := ["gtel.cyc"] }
-  | "g1m", [v, p, k] => do
+  | "g1m", [v0, p, k] => do
+    let v := if v0.endsWith "!" then (v0.dropEnd 1).toString else v0
     let p0 ← C03.parsePoint p
     let k ← pI k
     let p' := if v == "gen" then e.g1 else p0
     let k' := if v == "dig" then ((k.natAbs % 2 ^ w : Nat) : Int) else k
-    some { model := got, spec := [C03.fmtPoint (Relic.Spec.Curve.mul c1 p' k')], tags := ["g1m." ++ v] }
-  | "g2m", [v, q, k] => do
+    some { model := got, spec := [C03.fmtPoint (Relic.Spec.Curve.mul c1 p' k')], tags := ["g1m." ++ v0] }
+  | "g2m", [v0, q, k] => do
+    let v := if v0.endsWith "!" then (v0.dropEnd 1).toString else v0
     let q0 ← C11.parsePoint d2 q
     let k ← pI k
     let q' := if v == "gen" then e.e2.g else q0
     let k' := if v == "dig" then ((k.natAbs % 2 ^ w : Nat) : Int) else k
-    some { model := got, spec := [C11.fmtPoint d2 (mul c2 q' k')], tags := ["g2m." ++ v] }
+    some { model := got, spec := [C11.fmtPoint d2 (mul c2 q' k')], tags := ["g2m." ++ v0] }
   | "g1s", [v, p, k, q, m] => do
     let p0 ← C03.parsePoint p
     let q' ← C03.parsePoint q
@@ -123,7 +125,8 @@ def handle (e : Env) (w : Nat) (op : String) (args : List String) (got : String)
     let m ← pI m
     let p' := if v == "gen" then e.e2.g else p0
     some { model := got, spec := [C11.fmtPoint d2 (add c2 (mul c2 p' k) (mul c2 q' m))], tags := ["g2s." ++ v] }
-  | "gte", v :: a :: k :: rest => do
+  | "gte", v0 :: a :: k :: rest => do
+    let v := if v0.endsWith "!" then (v0.dropEnd 1).toString else v0
     let a0 ← d12.parse? a
     let k ← pI k
     let a' := if v == "gen" then e.gt else a0
@@ -137,7 +140,7 @@ def handle (e : Env) (w : Nat) (op : String) (args : List String) (got : String)
       let dd ← pI dd
       if !(gtValid e c || d12.isOne c) then some { model := got, spec := [got], tags := ["gte.outside"] } else
       some { model := got, spec := [fmtGt e (d12.mul (exp a' k') (exp c dd))], tags := ["gte.sim"] }
-    | _, _ => some { model := got, spec := [fmtGt e (exp a' k')], tags := ["gte." ++ v] }
+    | _, _ => some { model := got, spec := [fmtGt e (exp a' k')], tags := ["gte." ++ v0] }
   | "pp", [v, p, q] => do
     let p ← C03.parsePoint p
     let q ← C11.parsePoint d2 q
